@@ -56,7 +56,7 @@ def _replay(task):
 
 def distinctive(beh, p):
     st = beh["stmts"][p[1] - 1]
-    return len(A.sq(A.pieces(p[1], st["k"], st["n"], A.first_table_of(beh["stmts"]))[p[2] - 1]).rstrip(";")) >= 6
+    return len(A.sq(A.pieces(p[1], st["k"], st["n"], A.first_table_of(beh["stmts"]))[p[2] - 1]).rstrip(";")) >= 6 + (st["k"] == "tablens" and p[2] == st["n"])
 
 
 def pieces_in(stmt, beh, seed):
@@ -67,6 +67,8 @@ def pieces_in(stmt, beh, seed):
         c = l["code"]
         if c["k"] != "none":
             t = A.sq(A.pieces(c["sid"], c["k"], c["n"], ft)[c["idx"] - 1]).rstrip(";")
+            if c["k"] == "tablens" and c["idx"] == c["n"]:
+                t = t[:-1]          # the pending statement loses its last character when the next statement starts
             if len(t) >= 6 and t in s:
                 found.append(["code", c["sid"], c["idx"]])
         cm = l["cm"]
